@@ -318,10 +318,30 @@ pub fn vspec_strategy() -> BoxedStrategy<VSpec> {
 // ---------------------------------------------------------------------------------------------
 // byte-level strategies (legal field contents, incl. non-zero reserved bits)
 
+/// exactly 12 bytes of valid UTF-8 that is not an ISRC: multi-byte characters at every offset
+/// (the reader must refuse it with an error, whatever byte offsets it slices at)
+pub fn hostile_isrc_strategy() -> BoxedStrategy<String> {
+    "[A-Z0-9a-z\u{e9}\u{20ac}\u{1F3B5} -]{1,12}"
+        .prop_map(|t| {
+            let mut out = String::new();
+            for c in t.chars() {
+                if out.len() + c.len_utf8() > 12 {
+                    break;
+                }
+                out.push(c);
+            }
+            while out.len() < 12 {
+                out.push('0');
+            }
+            out
+        })
+        .boxed()
+}
+
 pub fn rtrack_strategy(cd: bool, number: u8, max_idx: usize) -> BoxedStrategy<RTrack> {
     (
         1u64..5000,
-        proptest::option::weighted(0.3, cuegen::isrc_strategy()),
+        proptest::option::weighted(0.3, prop_oneof![6 => cuegen::isrc_strategy(), 1 => hostile_isrc_strategy()]),
         any::<bool>(),
         any::<bool>(),
         prop_oneof![4 => Just(vec![0u8; 14]), 1 => proptest::collection::vec(any::<u8>(), 14)],
